@@ -68,6 +68,11 @@ let coq_E533 =
 let prim_void =
   N0
 
+(** val prim_i32 : coq_N **)
+
+let prim_i32 =
+  Npos (Coq_xI Coq_xH)
+
 (** val prim_u8 : coq_N **)
 
 let prim_u8 =
@@ -77,6 +82,11 @@ let prim_u8 =
 
 let prim_char8 =
   Npos (Coq_xO (Coq_xO (Coq_xI Coq_xH)))
+
+(** val prim_bool : coq_N **)
+
+let prim_bool =
+  Npos (Coq_xI (Coq_xO (Coq_xI Coq_xH)))
 
 type mty =
 | MPrim of coq_N
